@@ -765,8 +765,8 @@ theorem c08_left_epoch_increases (p : Proc) (now : Int) (m : Meta) (t : Terms) (
     have h1' : (p.current.getD (newFreshState p.beaconID)).epoch ≤ t.epoch := h1
     omega
 
-def leftWitnessL : Participant := { addr := "l", key := [2], sig := [2], scheme := "pedersen-bls-chained" }
-def leftWitnessMe : Participant := { addr := "x", key := [1], sig := [1], scheme := "pedersen-bls-chained" }
+def leftWitnessL : Participant := { addr := "l", key := [2], sig := List.replicate 96 2, scheme := "pedersen-bls-chained" }
+def leftWitnessMe : Participant := { addr := "x", key := [1], sig := List.replicate 96 1, scheme := "pedersen-bls-chained" }
 def leftWitnessState : DBState :=
   { beaconID := "default", epoch := 5, state := .left, threshold := 1, timeout := 100, schemeID := "pedersen-bls-chained",
     genesisTime := 5, genesisSeed := [9], leader := some leftWitnessL, remaining := [leftWitnessL], leaving := [leftWitnessMe] }
@@ -784,7 +784,7 @@ example :
     ((p.packet (leftWitnessSig 6) (.proposal (leftWitnessTerms 6)) 0).1.getCurrent.epoch = 6) ∧
     ((p.packet (leftWitnessSig 3) (.proposal (leftWitnessTerms 3)) 0).1.getCurrent.epoch = 5) ∧
     ((p.packet (leftWitnessSig 5) (.proposal (leftWitnessTerms 5)) 0).1.getCurrent.epoch = 5) := by
-  decide
+  decide +kernel
 
 /-
 The unrestricted statement "current.epoch never decreases" does NOT hold for the code as it is: a node without any
@@ -792,8 +792,8 @@ completed epoch (a joiner) that received an epoch-7 proposal which the leader th
 state and accepts an epoch-3 proposal afterwards. Witness below (kernel-checked); it is replayed on the real
 dkg.Process by the check (known finding "fresh-joiner-epoch-decreases").
 -/
-def joinerWitnessP : Participant := { addr := "j", key := [1], sig := [1], scheme := "pedersen-bls-chained" }
-def joinerWitnessL : Participant := { addr := "l", key := [2], sig := [2], scheme := "pedersen-bls-chained" }
+def joinerWitnessP : Participant := { addr := "j", key := [1], sig := List.replicate 96 1, scheme := "pedersen-bls-chained" }
+def joinerWitnessL : Participant := { addr := "l", key := [2], sig := List.replicate 96 2, scheme := "pedersen-bls-chained" }
 def joinerTerms (epoch : Nat) : Terms :=
   { beaconID := "default", epoch, threshold := 2, timeout := 100, schemeID := "pedersen-bls-chained", genesisTime := 5,
     genesisSeed := [9], catchupSec := 1, periodSec := 3, leader := joinerWitnessL, joining := [joinerWitnessP],
@@ -807,6 +807,6 @@ theorem c08_epoch_counterexample :
     let p2 := (p1.step 0 (.pkt (signedBy joinerWitnessL (.abort "none") (joinerTerms 7)) (.abort "none"))).1
     let p3 := (p2.step 0 (.pkt (signedBy joinerWitnessL (.proposal (joinerTerms 3)) (joinerTerms 3)) (.proposal (joinerTerms 3)))).1
     p1.getCurrent.epoch = 7 ∧ p2.getCurrent.state = .aborted ∧ p3.getCurrent.epoch = 3 := by
-  decide
+  decide +kernel
 
 end Drand.DKG
